@@ -35,8 +35,13 @@ def replay(rec, expected):
                     project.set_installed(installed)
                 hists[a].deploy(project, op['v'])
                 continue
-            if op['op'] in ('run', 'runonly'):
-                if op['op'] == 'run':
+            if op['op'] in ('run', 'runonly', 'runfail'):
+                if op['op'] == 'runfail':
+                    res = project.run({'action': 'command', 'name': 'evolve',
+                                       'options': {'execute': True, 'interactive': False, 'verbosity': 0},
+                                       'fault': {'at': 1, 'scope': 'batch'}})
+                    st['fault_fired'] = bool(res.get('fault_fired'))
+                elif op['op'] == 'run':
                     res = project.run({'action': 'command', 'name': 'evolve',
                                        'options': {'execute': True, 'interactive': False, 'verbosity': 0}})
                 else:
@@ -62,6 +67,13 @@ def replay(rec, expected):
                     st['outcome'] = 'rejected'
                 else:
                     st['outcome'] = 'failed'
+                if op['op'] == 'runfail':
+                    # announced, not completed: only applied_evolution counts as an execution
+                    executed = {a: [] for a in APP}
+                    for e in res['events']:
+                        if e['ev'] == 'applied_evolution':
+                            a = [k for k, v in APP.items() if v == e.get('app')][0]
+                            executed[a] += [int(l[1:]) for l in e.get('labels') or []]
                 st['executed'] = {a: sorted(v) for a, v in executed.items()}
                 for a, ls in executed.items():
                     for l in ls:
